@@ -293,6 +293,28 @@ fn gen_history(r: &mut ChaChaRng, need: usize) -> Vec<GOp> {
     h
 }
 
+/// a longer life of a generator table for table-only traces (any curve): capacities up to maxcap, up to maxparties parties
+pub fn gen_life(r: &mut ChaChaRng, maxcap: usize, maxparties: usize, maxops: usize) -> Vec<GOp> {
+    let parties = r.gen_range(0..=maxparties);
+    let mut cap = r.gen_range(0..=maxcap / 2);
+    let mut h = vec![GOp::New { cap, parties }];
+    for _ in 0..r.gen_range(1..=maxops) {
+        match r.gen_range(0..7) {
+            0 | 1 | 2 => {
+                let c = r.gen_range(0..=maxcap);
+                if c > cap {
+                    cap = c;
+                }
+                h.push(GOp::Inc { cap: c });
+            }
+            3 => h.push(GOp::Ser),
+            4 => h.push(GOp::Clone),
+            _ => h.push(GOp::View { kind: if r.gen_bool(0.5) { "G".into() } else { "H".into() }, n: r.gen_range(0..=cap), m: r.gen_range(0..=parties) }),
+        }
+    }
+    h
+}
+
 /// a whole session: generator tables with a history on both sides, the proof as bytes, tampering on objects or bytes
 pub fn gen_session(r: &mut ChaChaRng, m: i64, id: String) -> Program {
     let base = ["honest", "honest", "honest", "tamper", "badwit", "surplus"][r.gen_range(0..6)];
